@@ -6,7 +6,9 @@ immediately after each channel operation returns (the VM switches fibers only in
 and on completion, so "operation returned" and "record written" are atomic with respect to scheduling).
 
 Verdict zone (exclusions by construction, see known_findings.json):
-  * a channel is closed only by its unique sending fiber after its last send
+  * a channel is closed only by a fiber that has itself sent to or received from it before the close and that
+    does not send to it afterwards (except for a send that is expected to raise); sends of *other* fibers to a
+    channel that somebody closes are guarded sends (try/catch): they either enqueue or observe the close
   * no channel operation inside a native callback
 """
 import collections
@@ -88,14 +90,17 @@ def generate(r):
             scripts[b].insert(r.randint(0, len(scripts[b])), ["recv", ping])
         senders_of[ping].append(a)
 
-    # optional close by the unique sending fiber after its last send, and a drain by someone else
+    # optional close by a fiber that has used the channel, and a drain by someone else
     for ch in range(len(caps)):
         if any(op[0] == "close" and op[1] == ch for script in scripts for op in script):
             continue
-        ss = set(senders_of[ch])
-        if len(ss) == 1 and r.random() < 0.5:
-            f = ss.pop()
-            last = max(i for i, op in enumerate(scripts[f]) if op[0] == "send" and op[1] == ch)
+        users = [f for f in range(nf) if any(op[0] in ("send", "recv") and op[1] == ch for op in scripts[f])]
+        if users and r.random() < 0.5:
+            f = r.choice(users)
+            sends = [i for i, op in enumerate(scripts[f]) if op[0] == "send" and op[1] == ch]
+            uses = [i for i, op in enumerate(scripts[f]) if op[0] in ("send", "recv") and op[1] == ch]
+            # after its own last send if it sends, else after any of its uses
+            last = max(sends) if sends else r.choice(uses)
             scripts[f].insert(last + 1, ["close", ch])
             if r.random() < 0.3:
                 scripts[f].insert(last + 2, ["send_closed", ch, (f + 1) * 100 + 95])
@@ -103,14 +108,24 @@ def generate(r):
             if g != f and r.random() < 0.7:
                 scripts[g].append(["drain", ch])
 
-    closed = set(op[1] for script in scripts for op in script if op[0] == "close")
+    closed = {}
+    for f, script in enumerate(scripts):
+        for op in script:
+            if op[0] == "close":
+                closed[op[1]] = f
+    # sends of other fibers into a channel that somebody closes become guarded sends
+    for f, script in enumerate(scripts):
+        for op in script:
+            if op[0] == "send" and op[1] in closed and closed[op[1]] != f:
+                op[0] = "gsend"
     main = []
     for _ in range(r.randint(0, 3)):
         kind = r.choice(["send", "recv"])
         ch = r.randrange(len(caps))
-        if ch in closed and kind == "send":
-            continue
-        main.append(["send", ch, 900 + len(main)] if kind == "send" else ["recv", ch])
+        if kind == "send":
+            main.append(["gsend" if ch in closed else "send", ch, 900 + len(main)])
+        else:
+            main.append(["recv", ch])
     join = r.random() < 0.85
     variants = [r.choice(["fn", "lambda", "method", "capture"]) for _ in scripts]
     return {"caps": caps, "scripts": scripts, "main": main, "join": join, "variants": variants}
@@ -127,7 +142,7 @@ def render_ops(ops, fid):
             out.append("print('R', %d, %d, <- c%d, c%d.len());" % (fid, op[1], op[1], op[1]))
         elif op[0] == "close":
             out.append("c%d.close(); print('X', %d, %d);" % (op[1], fid, op[1]))
-        elif op[0] == "send_closed":
+        elif op[0] in ("send_closed", "gsend"):
             out.append("try { c%d <- %d; print('S', %d, %d, %d, c%d.len()); } catch e: Error { print('E', %d, %d, %d); }" % (
                 op[1], op[2], fid, op[1], op[2], op[1], fid, op[1], op[2]))
         elif op[0] == "drain":
@@ -258,6 +273,16 @@ def explore(ir, cap_states=MODEL_STATE_CAP):
                 else:
                     outcomes.add("error")
                     continue
+            elif op[0] == "gsend":
+                # a guarded send either enqueues or, once the channel is closed, observes the close and goes on
+                k = ci[op[1]]
+                if closed[k]:
+                    succ.append(upd(npc=pc + 1))
+                elif len(qs[k]) < capof[op[1]]:
+                    if sync[op[1]]:
+                        succ.append(upd(nph=1, nq=(k, qs[k] + (op[2],))))
+                    else:
+                        succ.append(upd(npc=pc + 1, nq=(k, qs[k] + (op[2],))))
             elif op[0] == "recv":
                 k = ci[op[1]]
                 if qs[k]:
@@ -289,7 +314,7 @@ def determinate(ir):
     readers = collections.defaultdict(set)
     for f, script in enumerate([ir["main"]] + ir["scripts"]):
         for op in script:
-            if op[0] in ("close", "drain", "send_closed"):
+            if op[0] in ("close", "drain", "send_closed", "gsend"):
                 return False
             if op[0] == "send":
                 writers[op[1]].add(f)
@@ -327,7 +352,7 @@ def check_history(stdout, ir, outcome):
     scripts = [ir["main"]] + ir["scripts"]
     for f, script in enumerate(scripts):
         for number, op in enumerate(script):
-            if op[0] in ("send", "send_closed"):
+            if op[0] in ("send", "send_closed", "gsend"):
                 sent[op[2]] = (f, op[1], op[0])
                 position[op[2]] = number
     received = []
@@ -374,7 +399,9 @@ def check_history(stdout, ir, outcome):
                 sends_returned[ch] += 1
                 if int(p[4]) > cap:
                     problems.append(("channel held more than its capacity", "len %s > capacity %d in record %d" % (p[4], cap, idx)))
-                if ch in closed_at:
+                # (a synchronous sender prints its record only after its value was taken, which may be after a close
+                # that happened while it was parked; only buffered sends are judged here)
+                if ch in closed_at and caps[ch] > 0:
                     problems.append(("send into a closed channel did not raise", "value %d after close of channel %d" % (v, ch)))
             elif p[0] == "X":
                 closed_at[int(p[2])] = idx
@@ -498,20 +525,27 @@ def shrink(ir):
 
 def valid_zone(ir):
     """Is the network inside the verdict zone (used to reject shrink candidates that leave it)."""
-    senders = collections.defaultdict(set)
-    for f, script in enumerate([ir["main"]] + ir["scripts"]):
+    scripts = [ir["main"]] + ir["scripts"]
+    closer = {}
+    for f, script in enumerate(scripts):
+        used = set()
+        closed_here = set()
         for op in script:
-            if op[0] == "send":
-                senders[op[1]].add(f)
-    for f, script in enumerate([ir["main"]] + ir["scripts"]):
-        closed = set()
-        for op in script:
-            if op[0] == "close":
-                if senders[op[1]] != {f}:
+            if op[0] in ("send", "recv", "gsend", "drain"):
+                if op[0] == "send" and op[1] in closed_here:
                     return False
-                closed.add(op[1])
-            elif op[0] == "send" and op[1] in closed:
+                used.add(op[1])
+            elif op[0] == "close":
+                # the closer must have used the channel before closing it, and nobody else closes it
+                if op[1] not in used or op[1] in closer:
+                    return False
+                closer[op[1]] = f
+                closed_here.add(op[1])
+            elif op[0] == "send_closed" and op[1] not in closed_here:
                 return False
-            elif op[0] == "send_closed" and op[1] not in closed:
+    # plain sends into a channel somebody else closes must be guarded
+    for f, script in enumerate(scripts):
+        for op in script:
+            if op[0] == "send" and op[1] in closer and closer[op[1]] != f:
                 return False
     return True
